@@ -206,7 +206,9 @@ def _install_ins_script(obs, script, seed):
             if row[j]:
                 val = float(tol) if rng.random() < 0.5 else float(tol) - 0.5
             else:
-                val = float(tol) + 0.5
+                # above the tolerance, or not a number (a criterion that is NaN - e.g. Z_err when exp(ln Z)
+                # underflows - does not satisfy `criterion <= tolerance`)
+                val = float(tol) + 0.5 if rng.random() < 0.7 else float("nan")
             setattr(ns, name, val)
             cond[j] = val
         return cond
